@@ -15,6 +15,7 @@ from rv import gen
 from rv.props import _c06_monitor as mon
 
 ID = "C06"
+REPO_TESTS = "C06"   # the repository's tests also run under this property's monitors
 LEVEL = "exploration"
 RULE = ("seeded random edge arrays (1-3 dimensions, 2..12 edges per axis; classes: uniform "
         "ints, uniform floats, geometric 1e-9..1e9, signed geometric, clustered with "
